@@ -324,6 +324,15 @@ static size_t fill_vals(int kind) {
             VALS[n] = 65534 - 4096 + n;
         }
         break;
+    case 18: /* > 10000 elements, every 10th equal (the stride of the uniqueness sample), the others distinct 9-byte
+              * values: the dictionary is selected although its encoding exceeds the adaptive bound - the size probe
+              * (which allocates) is the only thing between the selection and the caller's buffer */
+    case 19:
+    case 20:
+        for (n = 0; n < (kind == 18 ? 10001u : 12000u); n++) {
+            VALS[n] = (n % 10 == 0) ? 42 : (kind == 20 ? 100000 + n : 0xF000000000000000ULL + n);
+        }
+        break;
     case 12: /* 300 distinct values: 2-byte dictionary indices */
         for (n = 0; n < 600; n++) {
             VALS[n] = (n % 300) * 1000003ULL + 17;
@@ -332,7 +341,7 @@ static size_t fill_vals(int kind) {
     }
     return n;
 }
-static const char *VALN[] = {"60 values over 5 distinct", "200 values over 40 distinct", "100 clustered values", "100 clustered values with 4 outliers", "300 strictly increasing small values", "300 sorted large values", "10500 pseudo-scattered values", "50 unsorted wide values", "5000 strictly increasing values", "ascending 0..49 with one duplicate", "200 values with range exactly 0xFF", "300 values with range exactly 0xFFFF", "600 values over 300 distinct", "21 scattered 9-byte values with an 8-byte spread and one outlier", "40 values: exceptions plus in-range values equal to min+0xFF", "60 values: exceptions plus in-range values equal to min+0xFFFF", "5000 consecutive values from 100", "4097 consecutive values ending at 65534"};
+static const char *VALN[] = {"60 values over 5 distinct", "200 values over 40 distinct", "100 clustered values", "100 clustered values with 4 outliers", "300 strictly increasing small values", "300 sorted large values", "10500 pseudo-scattered values", "50 unsorted wide values", "5000 strictly increasing values", "ascending 0..49 with one duplicate", "200 values with range exactly 0xFF", "300 values with range exactly 0xFFFF", "600 values over 300 distinct", "21 scattered 9-byte values with an 8-byte spread and one outlier", "40 values: exceptions plus in-range values equal to min+0xFF", "60 values: exceptions plus in-range values equal to min+0xFFFF", "5000 consecutive values from 100", "4097 consecutive values ending at 65534", "10001 values, every 10th equal, the others distinct 9-byte values", "12000 values, every 10th equal, the others distinct 9-byte values", "12000 values, every 10th equal, the others distinct 3-byte values"};
 
 static int same_u64(const uint64_t *a, const uint64_t *b, size_t n) { return memcmp(a, b, n * 8) == 0; }
 
@@ -868,6 +877,10 @@ static void build_scenarios(void) {
         add_sc("adaptive.EncodeWith[4]", 3, 14, vk, 0);
         add_sc("adaptive.EncodeWith[0]", 3, 10, vk, 0);
         add_sc("adaptive.Decode[4]", 3, 24, vk, 0);
+    }
+    for (int vk = 18; vk <= 20; vk++) {
+        add_sc("adaptive.Encode", 3, 1, vk, 0);
+        add_sc("adaptive.CountUnique/Analyze", 3, 0, vk, 0);
     }
     add_sc("PFOR.ComputeThreshold", 1, 0, 10, 0);
     add_sc("adaptive.EncodeWith[2]", 3, 12, 10, 0);
